@@ -828,6 +828,29 @@ def single_difference_pairs(lang: str, ctx_names: typing.Optional[typing.Set[str
     return pairs, sorted(wanted - covered)
 
 
+def crossed_difference_pairs(lang: str, quick: bool):
+    """
+    Two options differ, one on each side: A changes option o1 and keeps o2, B keeps o1 and changes o2 (both ordered ways, from
+    the defaults).  A comparison that aggregates the options (a sum, a checksum, an "any differs" flag computed the wrong way)
+    can let such differences cancel although every single difference is still caught.
+    """
+    d = defaults(lang)
+    opts = sorted(VALUES[lang])
+    if quick:  # the cheap classes: every pair of on/off options, and on/off x endianness
+        opts = [o for o in opts if VALUES[lang][o] in ([False, True], [True, False]) or o == "target_endianness"]
+    pairs = []
+    for i, o1 in enumerate(opts):
+        for o2 in opts[i + 1 :]:
+            for v1 in [v for v in VALUES[lang][o1] if v != d.get(o1, ABSENT)][: 1 if quick else 2]:
+                for v2 in [v for v in VALUES[lang][o2] if v != d.get(o2, ABSENT)][: 1 if quick else 2]:
+                    a, b = dict(d), dict(d)
+                    a[o1], b[o2] = v1, v2
+                    if generatable(lang, a) and generatable(lang, b):
+                        pairs.append({"lang": lang, "A": spec(lang, a), "B": spec(lang, b), "cls": "crossed", "opt": f"{o1}+{o2}"})
+                        pairs.append({"lang": lang, "A": spec(lang, b), "B": spec(lang, a), "cls": "crossed", "opt": f"{o2}+{o1}"})
+    return pairs
+
+
 def spelling_pairs(lang: str):
     pairs = []
     if lang != "cpp":
@@ -1035,6 +1058,7 @@ def run(ctx: core.Ctx):
             uncovered[lang] = unc
             pairs += sp
             pairs += spelling_pairs(lang)
+            pairs += crossed_difference_pairs(lang, q)
             pairs += identical_pairs(lang)
             n_multi = (40 if lang == "c" else 70) if q else (200 if lang == "c" else 500)
             n_ident = (15 if lang == "c" else 30) if q else (80 if lang == "c" else 200)
